@@ -45,7 +45,21 @@ LEVEL_TEXT = ('Coq theorems over an executable exception-flow model of drivers.r
               'encodable (no lone surrogate), which a decode_raw_line restricted to strict/replace guarantees.  The except-clause lists of _read, drivers.run, log.firewall, feedMsg and the '
               '__firewalled__ dictionaries are regenerated from the source on every run; the model is run beside the real driver + Irc.')
 LEVEL_NOTE = ('Trusted: Coq kernel, gen_tables.py/t07.py, extraction + OCaml driver, the Python harness; decode_raw_line, strptime, recv and '
-              'handler outcomes are explicit inputs; reconnect is reduced to connected:=False; Python code is modelled, not verified.')
+              'handler outcomes are explicit inputs; Python code is modelled, not verified.  NOT MODELLED (gap audit; probed on the real '
+              'code where possible, none contradicted the property): (1) the reconnect path — SocketDriver.reconnect/connect, Irc.reset, '
+              'scheduleReconnect — is reduced to connected:=False; probes with ERROR/STS-triggered real reconnects and raising '
+              'callback.reset() were clean, but an exception raised inside reconnect() between `connected = False` and '
+              'scheduleReconnect() (operator configuration errors, not server bytes) leaves the driver registered and never reconnecting, '
+              'or removed when it comes from SocketDriver.run; (2) outgoing messages other than PONG (replies of real plugins, the emulated '
+              'echo that re-enters feedMsg from takeMsg, the asserts on re-sent received messages) — no stock plugin is loaded, callbacks '
+              'are scripted; (3) non-raising faults of plugins: blocking, infinite reply loops on the emulated echo (with throttleTime 0), '
+              'outFilters that drop/rewrite the PONG, irc.die()/driver.die(), Irc.zombie; (4) the ping timer of takeMsg (protocols.irc.ping '
+              'is off in the run); (5) the charade branch of decode_raw_line (charade is not installed; its detector calls sit outside the '
+              'per-line guard of _read); (6) recv exceptions with empty args (e.args[0] in the handlers of _read / _handleSocketError), '
+              'EAGAIN counting, partial sends; (7) more than one driver: SocketDriver._select reads for every instance, so what leaves one '
+              'network\'s _read (only a BaseException after the repairs) is blamed on the driver whose run() called it; (8) tag/state '
+              'bookkeeping of Irc handlers other than doPing, _nickSetters and the ISUPPORT entries read by _tagMsg is an arbitrary '
+              'function in the model (its outcome is observed, not predicted); (9) unbounded inbuffer growth on a stream without newline.')
 TECHNIQUE = 'Coq proof (invariant over the run of drivers.run() calls, induction over lines/callbacks) + regenerated except-clause/firewall tables + extracted-model differential run'
 EXPLANATION = 'C07: exception-flow model of the connection loop; theorems in coq/C07/Props.v'
 
@@ -332,14 +346,17 @@ def run_impl(inp):
         del S.SocketDriver._instances[:]
         if irc in E['world'].ircs:
             E['world'].ircs.remove(irc)
-    pongs = []
-    for l in conn.sent.decode('utf-8', 'replace').split('\r\n'):
-        if l.startswith('PONG '):
-            pongs.append(E['ircmsgs'].IrcMsg(l).args[0] if l != 'PONG :' else '')
-    stuck = []
-    for l in drv.outbuffer.decode('utf-8', 'replace').split('\r\n'):
-        if l.startswith('PONG '):
-            stuck.append(E['ircmsgs'].IrcMsg(l).args[0] if l != 'PONG :' else '')
+    def pongs_in(data):
+        """payloads of the PONG lines in what was written; a line may carry tags (`@label=... PONG :x` once the server
+        has ACKed labeled-response)"""
+        out = []
+        for l in data.decode('utf-8', 'replace').split('\r\n'):
+            body = l.split(' ', 1)[1] if l.startswith('@') and ' ' in l else l
+            if body.startswith('PONG '):
+                out.append(E['ircmsgs'].IrcMsg(body).args[0] if body != 'PONG :' else '')
+        return out
+    pongs = pongs_in(conn.sent)
+    stuck = pongs_in(drv.outbuffer)
     obs = {'alive': alive, 'crashed': crashed, 'escapes': escapes, 'pongs': pongs, 'log': H.log,
            'fed': [f[0][:-1] for f in H.fed], 'connected': bool(drv.connected), 'inbuf': drv.inbuffer.decode('latin-1'),
            'outbuf': stuck}
@@ -652,6 +669,16 @@ AFTER_ISUP = ['PING :abc', 'PING #x', 'PING :#a b', 'PING t', 'PING :a,b', ':n!u
               ':irc.srv 005 test CHANTYPES=# CHANNELLEN=50 :are supported', ':irc.srv 005 test CHANTYPES=# :are supported', 'PING \x07a', 'NOTICE']
 
 
+# capability negotiation lines whose effect lasts: labeled-response tags every outgoing line, echo-message switches the
+# emulated echo off, unrequested ACKs / sts ask for a reconnect
+CAP_LINES = [':irc.srv CAP * LS :labeled-response echo-message batch', ':irc.srv CAP * LS :labeled-response', ':irc.srv CAP * LS * :echo-message',
+             ':irc.srv CAP test ACK :labeled-response', ':irc.srv CAP test ACK :echo-message labeled-response', ':irc.srv CAP test ACK :echo-message',
+             ':irc.srv CAP test NAK :labeled-response', ':irc.srv CAP * NEW :labeled-response', ':irc.srv CAP * DEL :labeled-response',
+             ':irc.srv CAP test ACK :-labeled-response', ':irc.srv CAP * LS :sts=port=6697,duration=10', ':irc.srv CAP * LS :sts=port=x',
+             ':irc.srv CAP * LS :sts', ':irc.srv CAP test ACK :batch', ':irc.srv BATCH +r labeled-response', '@batch=r;label=x :irc.srv PING :inb',
+             ':irc.srv BATCH -r', '@label=abc :irc.srv ACK', '@label :irc.srv PING :lab']
+
+
 def isup_line(rng):
     toks = [rng.choice(ISUP_TOKENS) for _ in range(rng.randint(0, 4))]
     k = rng.random()
@@ -678,6 +705,9 @@ def mutate(rng, l):
 
 
 CORPUS = [
+    # once the server has ACKed labeled-response every outgoing line, the PONG included, carries an @label tag
+    {'chunks': [['d', ':s CAP * LS :labeled-response echo-message\r\n:s CAP test ACK :labeled-response echo-message\r\nPING :l1\r\n'],
+                ['d', 'PING :after\r\n']], 'cbs': [{'in': [], 'call': [], 'out': [0, 12], 'kind': 'plugin'}], 'addmsg': [], 'final_ping': 'after'},
     # witness of the repaired finding C07.F46: a plugin (class derived from callbacks.Plugin) whose outFilter raises must not
     # make takeMsg drop every outgoing message
     {'chunks': [['d', 'PING :one\r\n'], ['d', 'PING :after\r\n']], 'addmsg': [], 'final_ping': 'after',
@@ -785,6 +815,9 @@ def gen_cases(ctx):
             r = rng.random()
             ls.append(isup_line(rng) if r < 0.4 else (rng.choice(AFTER_ISUP) if r < 0.85 else rng.choice(VALID + ABSURD)))
         cases.append(('isupport', mk_case(rng, ls, heavy=rng.random() < 0.3)))
+    for _ in range(ctx.n(300)):
+        ls = [rng.choice(CAP_LINES) if rng.random() < 0.6 else rng.choice(AFTER_ISUP + VALID) for _ in range(rng.randint(2, 8))]
+        cases.append(('cap-sequence', mk_case(rng, ls, heavy=rng.random() < 0.3)))
     for l in MALFORMED_FMT + CLEAN_FMT:
         cases.append(('format-single', mk_case(rng, [l], heavy=False, faults=False)))
     for _ in range(ctx.n(500)):
